@@ -194,3 +194,14 @@ package resolver
 //@   assert at return#17: result1 != nil
 //@   assert at call middleware/resolver/dnssec.VerifyDelegationForZoneWithWork#1: arg2 == lastret("internal/dnsutil.FilterRRsToZone")
 //@   assert at call middleware/resolver/dnssec.VerifyDelegationNSEC#1: arg1 == lastret("internal/dnsutil.FilterRRsToZone")
+//@
+//@ # ---- C02: RFC 8020 stop. Resolution stops at a minimised NXDOMAIN only when authority() validated it without
+//@ # error AND the validated-denial provenance for that exact reply is aggressive-eligible and not resting on an
+//@ # opt-out span of the proof's zone; every other case continues the ordinary walk
+//@ func (*Resolver).processAuthoritySection
+//@   abstract
+//@   nosafety all pre
+//@   assert at call (*middleware/resolver.Resolver).authority#1: arg2 == minReq && arg3 == resp
+//@   assert at call middleware.ValidatedNegativeProofForResponse#1: arg1 == lastret("(*middleware/resolver.Resolver).authority#1") && lastret("(*middleware/resolver.Resolver).authority#1", 1) == nil
+//@   assert at call internal/dnsutil.HasNSEC3OptOut#1: arg1 == lastret("middleware.ValidatedNegativeProofForResponse").Zone
+//@   assert at return#2: result1 == nil && result0 == lastret("(*middleware/resolver.Resolver).authority#1") && lastret("(*middleware/resolver.Resolver).authority#1", 1) == nil && lastret("middleware.ValidatedNegativeProofForResponse", 1) && lastret("middleware.ValidatedNegativeProofForResponse").Aggressive && lastret("middleware.ValidatedNegativeProofForResponse").Proof != nil && !lastret("internal/dnsutil.HasNSEC3OptOut")
